@@ -195,13 +195,15 @@ reg(Check("C08", "model_checking",
           engine="E2 xstate + E3 memdb", claimed=False,
           parts=[Part("acl-direct", SRV, "^TestVerifC08Acl$", instr=True, gomaxprocs=16, deadline=(300, 2400)),
                  Part("acl-fault", SRV, "^TestVerifC08AclFault$", instr=True, gomaxprocs=16, deadline=(300, 2400)),
-                 Part("msg", SRV, "^TestVerifC08Msg$", instr=True, gomaxprocs=16, deadline=(400, 3000))]))
+                 Part("msg", SRV, "^TestVerifC08Msg$", instr=True, gomaxprocs=16, deadline=(400, 3000)),
+                 Part("msg-fault", SRV, "^TestVerifC08MsgFault$", instr=True, gomaxprocs=16, deadline=(400, 3000))]))
 
 reg(Check("C13", "model_checking",
           "(being extended) every request of the acl alphabet answered, also when any single store call fails",
           [], text=XS_NOTE, note="input product part pending", technique="explicit-state model checking + fault enumeration",
           engine="E2 xstate", claimed=False,
-          parts=[Part("acl-fault", SRV, "^TestVerifC13AclFault$", instr=True, gomaxprocs=16, deadline=(300, 2400))]))
+          parts=[Part("acl-fault", SRV, "^TestVerifC13AclFault$", instr=True, gomaxprocs=16, deadline=(300, 2400)),
+                 Part("msg-fault", SRV, "^TestVerifC13MsgFault$", instr=True, gomaxprocs=16, deadline=(300, 2400))]))
 
 MSG_RULE = ("BFS over histories of {pub by 4 users (one with forged sender header + noecho), soft/hard delete with 6 (quick) / 11 (thorough) "
             "range lists, read/recv/kp/bogus notes with stale/valid/future ids, want/given flips of R and W, unsub/sub/leave/attach, reload} on a "
